@@ -90,9 +90,9 @@ def nested_cases(tier, seed):
 def concurrent_big_value_cases(tier, seed):
     """Several branches finish steps with large nested (non-plain-JSON) results at the same moment, so the shared default
     serializer is inside serialize() on several threads at once; the block then suspends and the recorded values are read back."""
-    for j in range(4 if tier == "quick" else 30):
+    for j in range(8 if tier == "quick" else 40):
         nb = [4, 6, 8][j % 3]
-        rows = [120, 300][j % 2]
+        rows = [300, 600][j % 2]
         brs = [{"body": [{"k": "step", "script": [{"do": "ok", "val": [{"id": r, "pair": (r, str(b)), "tags": ["x", b]} for r in range(rows)], "gate": "go"}]},
                          {"k": "wait", "s": 1}, {"k": "step", "val": b}]} for b in range(nb)]
         node = {"k": "par", "branches": brs, "cfg": {"tol_n": 99}}
